@@ -141,6 +141,30 @@ def build(sc, env, rec):
     dflt = make_tap(rec, "d", 0) if cfg["dflt"] else None
     ends = {f: make_tap(rec, "e", f) for f in cfg["ends"]}
     table = {f: p - 1 for f, p in cfg["table"]}
+    if kind in ("fib", "fair", "flow", "hub") and st.get("twin", 1):
+        # Another element of the same class lives in the same process with every flow routed to a foreign device: nothing
+        # registered on it may show in the element under test (state shared between instances is a defect)
+        class Foreign:
+            element_id = "foreign"
+
+            def put(self, packet):
+                rec.log("X", x="ForeignDelivery")
+        fo = Foreign()
+        try:
+            if kind in ("fib", "fair"):
+                tw = FIBDemux(outs=[fo], fib={f: 0 for f in range(20)}, default_out=fo)
+                for f in range(20):
+                    tw.ends[f] = fo
+                tw2 = FIBDemux()
+                for f in range(20):
+                    tw2.ends[f] = fo
+            elif kind == "flow":
+                FlowDemux([fo] * 20, fo)
+            else:
+                tw = Hub(env)
+                tw.add_endpoint(fo, None)
+        except Exception:
+            pass
     if kind == "flow":
         if st.get("ctor") == "positional" or dflt is not None:
             el = FlowDemux(outs, dflt)
